@@ -356,6 +356,19 @@ def run_check(pid, tier, seed, replay, t0, debug=False):
                 o = mod.run(c)
         except Timeout:
             o = Outcome(coq=None, oracle="call did not terminate within the wall-clock guard", sig=("timeout",))
+        except Exception as e:  # noqa: BLE001
+            # an exception the property module did not expect: when it was RAISED INSIDE the tree under test (innermost frame
+            # is a file of that tree) the implementation failed on an input of the property's domain where every module's
+            # un-guarded calls are calls that must return; otherwise the machinery is broken (exit 2, below)
+            import traceback
+            tb = traceback.extract_tb(e.__traceback__)
+            root = os.path.realpath(os.environ.get("NIR_REPO", "/repo")) + os.sep
+            if tb and os.path.realpath(tb[-1].filename).startswith(root):
+                where = f"{os.path.relpath(os.path.realpath(tb[-1].filename), root)}:{tb[-1].lineno}"
+                o = Outcome(coq=None, oracle=f"the implementation raised {type(e).__name__}: {e} at {where} on an input for which the "
+                            f"property requires a result", sig=("raised", where))
+            else:
+                raise
         if o.oracle and "did not terminate" in o.oracle:
             n_timeouts += 1
         outcomes.append(o)
